@@ -1023,3 +1023,83 @@ pub fn rename_after_uncompress<S: Src, K: Skel>(s: &mut S) -> Verdict {
     vcover!(s, true, "end");
     Ok(())
 }
+
+// ------------------------------------------------------------------ deleting the OPT record
+
+/// C08 / C09 / C11: reach the OPT pseudo-record with the OPT-including walk of the
+/// additional section and delete it: only that record and the additional count go, and the
+/// object's EDNS view (offset, option count, version, flags, extended rcode, payload size)
+/// equals a fresh parse of the bytes, i.e. "no OPT".
+pub fn delete_opt<S: Src, K: Skel>(s: &mut S) -> Verdict {
+    let p = K::build(s);
+    let (recs, n) = recs_of::<K>();
+    let mut t = n;
+    let mut i = 0;
+    while i < n {
+        if recs[i].section == 3 && recs[i].rtype == spec::T_OPT {
+            t = i;
+        }
+        i += 1;
+    }
+    if t == n {
+        vassert!(false, "ORACLE: the skeleton has an OPT record");
+        return Ok(());
+    }
+    let mut pp = parse_ok::<S>(&p)?;
+    let mut ok = false;
+    let mut found = false;
+    let mut tomb = false;
+    let mut second_void = false;
+    {
+        let mut cur = pp.into_iter_additional_including_opt();
+        while let Some(mut it) = cur {
+            if it.rr_type() == spec::T_OPT {
+                found = true;
+                ok = it.delete().is_ok();
+                tomb = it.is_tombstone();
+                cut_errors(0);
+                second_void = match it.delete() {
+                    Err(e) => err_kind(&e) == EK::VoidRecord,
+                    Ok(()) => false,
+                };
+                break;
+            }
+            cur = it.next_including_opt();
+        }
+    }
+    cut_errors(0);
+    vassert!(found, "the OPT-including walk reaches the OPT record");
+    vassert!(ok, "delete succeeds on a live cursor");
+    vassert!(tomb, "delete: the cursor becomes a tombstone");
+    vassert!(second_void, "delete through a tombstone reports a void record");
+    check_view(&mut pp)?;
+    vassert!(pp.into_iter_edns().is_none(), "delete OPT: no EDNS option walk on a packet without OPT");
+    let after = pp.packet().to_vec();
+    let mut alay = spec::Layout::new();
+    if spec::layout_of(&after, &mut alay) != spec::Acc::Yes {
+        vassert!(false, "delete: the resulting bytes are well-formed");
+        return Ok(());
+    }
+    vassert!(alay.nrec + 1 == n, "delete: exactly one record fewer");
+    vassert!(spec::bytes_eq(&p, 0, &after, 0, 4), "delete: id and flags unchanged");
+    let mut sct = 0;
+    while sct < 4 {
+        let want = recs_count(&recs, n, sct as u8) - if sct == 3 { 1 } else { 0 };
+        vassert!(spec::rd16(&after, 4 + 2 * sct) as usize == want, "delete: only the section's count is lowered, by one");
+        sct += 1;
+    }
+    let mut i = 0;
+    while i < n {
+        if i < t {
+            vassert!(spec::rec_eq(&p, &recs[i], &after, &alay.recs[i], true), "delete: records before the deleted one are unchanged");
+        } else if i > t {
+            vassert!(spec::rec_eq(&p, &recs[i], &after, &alay.recs[i - 1], true), "delete: records after the deleted one are unchanged, in order");
+        }
+        i += 1;
+    }
+    if recs_count(&recs, n, 3) == 1 {
+        vassert!(pp.offset_additional.is_none(), "delete: an emptied section reads as absent");
+    }
+    vcover!(s, true, "end");
+    Ok(())
+}
